@@ -12,7 +12,7 @@
     (harness/restdiff) compares the REAL traces up to renaming by first occurrence. protojson decoding
     and the grpc-gateway runtime are exercised by the harness, not modelled. Proofs: Proofs/RestSeq2.v. *)
 From Coq Require Import String.
-From Ldlm Require Import Model.Base Model.Err Model.Seq Model.Track Model.Rest Proofs.RestDefs Proofs.RestSeq2.
+From Ldlm Require Import Model.Base Model.Err Model.Seq Model.Track Model.Rest Proofs.RestDefs Proofs.RestSeq2 Proofs.RestExamples.
 Local Open Scope Z_scope.
 
 (** For every abstract request list in which no REST session idles out ([gaps_ok]: at every instant an
@@ -57,26 +57,13 @@ Theorem C15_mixed_grpc_to_rest : ∀ cfg tmo st sid n sz lt k st1 o1 c st2 o2,
 Proof. exact RestSeq2.C15_mixed_grpc_to_rest. Qed.
 Print Assumptions C15_mixed_grpc_to_rest.
 
-(** Non-vacuity: a request list with two clients, a lease, an idle gap of timeout-1ns, a renew, a cross-client
-    unlock and a disconnect satisfies every hypothesis of [C15_equiv]; its REST run exists, grants and unlocks. *)
-Definition ex_cfg : config := Config false true 1800000000000 300000000000 600000000000.
-Definition ex_tmo : Z := 2000000000.
-Definition ex_items : list aitem :=
-  [AConnect 0 [x63; x30] [x73; x30]; AConnect 1 [x63; x31] [x73; x31];
-   AReq 0 (QTry [x61] (Some 2) (Some 3) [x6b; x30]); AProbe;
-   AAdvance 1999999999; AReq 0 (QRenew [x61] [x6b; x30] 5); AReq 1 (QTry [x61] (Some 2) None [x6b; x31]);
-   AAdvance 1999999999; AReq 1 (QUnlock [x61] [x6b; x30]); AReq 0 (QNoop 404); AProbe; ADisconnect 1; AProbe].
-
+(** Non-vacuity (the run is computed once in Proofs/RestExamples.v): a request list with two clients, a lease, idle gaps of
+    timeout-1ns, a renew, a cross-client unlock, a gateway-answered exchange and a disconnect satisfies every hypothesis
+    of [C15_equiv]; its REST run is [ex15_os], in which a grant and an unlock are answered 200. *)
 Example C15_nonvacuous :
-  0 < ex_tmo ∧ NoDup (cookies_of ex_items) ∧ gaps_ok ex_tmo 0 ∅ ex_items = true ∧
-  (∀ i, AReq i (QNoop 401) ∉ ex_items) ∧
-  (∃ r os, rest_runs ex_cfg ex_tmo (rinit ex_cfg, ∅) ex_items = [(r, os)] ∧
-           [ROStatus 200; ROSeq (OResp (RLock true [x6b; x30] None))] ∈ os ∧
-           [ROStatus 200; ROSeq (OResp (RUnlock true None))] ∈ os).
-Proof.
-  split; [reflexivity|]. split; [apply (bool_decide_unpack _); vm_compute; exact I|].
-  split; [vm_compute; reflexivity|].
-  split; [intros i H; unfold ex_items in H; repeat (apply elem_of_cons in H as [H|H]; [congruence|]); by apply elem_of_nil in H|].
-  eexists _, _. split; [vm_compute; reflexivity|].
-  split; repeat (first [apply elem_of_list_here | apply elem_of_list_further]).
-Qed.
+  0 < ex15_tmo ∧ NoDup (cookies_of ex15_items) ∧ gaps_ok ex15_tmo 0 ∅ ex15_items = true ∧
+  (∀ i, AReq i (QNoop 401) ∉ ex15_items) ∧
+  map snd (rest_runs ex15_cfg ex15_tmo (rinit ex15_cfg, ∅) ex15_items) = [ex15_os] ∧
+  existsb (routs_eqb proj_all true ex15_grant) ex15_os = true ∧
+  existsb (routs_eqb proj_all true ex15_unlock) ex15_os = true.
+Proof. exact RestExamples.c15_nonvacuous. Qed.
